@@ -100,6 +100,8 @@ impl Stats {
     pub fn bump(&mut self, key: &str) { *self.dist.entry(key.to_string()).or_insert(0) += 1; }
     pub fn add(&mut self, key: &str, n: u64) { *self.dist.entry(key.to_string()).or_insert(0) += n; }
     pub fn sample(&mut self, v: serde_json::Value) { if self.samples.len() < 5 { self.samples.push(v); } }
+    /// violations recorded or dropped so far
+    pub fn violations_seen(&self) -> u64 { self.violations.len() as u64 + self.dist.get("violations_dropped").cloned().unwrap_or(0) }
     pub fn violation(&mut self, v: serde_json::Value) { if self.violations.len() < 400 { self.violations.push(v); } else { self.bump("violations_dropped"); } }
     pub fn to_json(&self, rule: &str) -> serde_json::Value {
         serde_json::json!({
